@@ -238,6 +238,14 @@ TARGETS = [
                                  (r"let mut atomic_tmp_file = AtomicOutFile::new\(&self\.outpath\)\?", "tempEntryManifest"),
                                  (r"manifest_creator\.finalize\(&mut atomic_tmp_file\)\?;\s*atomic_tmp_file\.close_file\(\)\?", "publishEntryManifest"),
                                  (r"let container_file = container\.finalize\(\)\?;\s*container_file\.close_file\(\)\?;\s*\}\s*Ok\(\(\)\)", "publishEntryContainer")])),
+    # ---- lookups of the container reader
+    dict(name="manifestPackInfoById", group="Lookup", file="src/reader/manifest_pack.rs", fn="get_content_pack_info",
+         cfg=dict(params=[("packIds", "List Nat"), ("pack_id", N)], ret="Option Nat",
+                  self_fields={"pack_infos": "packIds"}, methods={".pack_id": "{recv}"})),
+    dict(name="chainedLocate", group="Lookup", file="src/reader/locator.rs", fn="locate", after=r"impl PackLocatorTrait for ChainedLocator",
+         cfg=dict(implicit="{α : Type}", params=[("answers", "List (Option α)")], ret="Option α", fuel="answers.length + 1",
+                  for_lists={"&self.0": ("answers", "none")}, local_types={"locator": "Option α", "reader": "Option α", "locator_idx": "Nat"},
+                  exprs={"locator.locate(uuid, path)": "locator", "Ok(None)": "none"})),
 ]
 
 
@@ -420,8 +428,8 @@ def apply_enums(t):
     return "\n".join(decls)
 
 
-GROUP_IMPORTS = {"Fs": ["JubakoModel.Model.BasicCreatorFs"], "Sync": ["JubakoModel.Model.SyncVec"], "Pipe": ["JubakoModel.Model.Pipeline"], "Proto": ["JubakoModel.Model.FileCursor"], "Search": ["JubakoModel.Generated.FuncsBytes"], "Content": ["JubakoModel.Generated.FuncsBytes"], "Dir": ["JubakoModel.Generated.FuncsBytes", "JubakoModel.Model.Bytes"]}
-GROUP_ORDER = ["Bytes", "Content", "Dir", "Order", "Search", "View", "Check", "Proto", "Pipe", "Sync", "Fs"]
+GROUP_IMPORTS = {"Lookup": [], "Fs": ["JubakoModel.Model.BasicCreatorFs"], "Sync": ["JubakoModel.Model.SyncVec"], "Pipe": ["JubakoModel.Model.Pipeline"], "Proto": ["JubakoModel.Model.FileCursor"], "Search": ["JubakoModel.Generated.FuncsBytes"], "Content": ["JubakoModel.Generated.FuncsBytes"], "Dir": ["JubakoModel.Generated.FuncsBytes", "JubakoModel.Model.Bytes"]}
+GROUP_ORDER = ["Bytes", "Content", "Dir", "Order", "Search", "View", "Check", "Proto", "Pipe", "Sync", "Fs", "Lookup"]
 
 
 def main():
